@@ -1038,7 +1038,7 @@ def gen_multi(rng, extra=None):
     prof = dict(STAGE_PROF)
     if extra:
         prof.update(extra)
-    md = {'templates': [], 'stages': [], 'refs': [], 'pvars': rng.choice([0, 1, 1, 2]), 'pcons': [], 'pobj': None}
+    md = {'templates': [], 'stages': [], 'refs': [], 'pvars': rng.choice([0, 1, 1, 2]), 'pparams': rng.choice([0, 1, 1]), 'pcons': [], 'pobj': None}
     n = rng.choice([2, 2, 3])
     use_template = rng.random() < 0.6
     if use_template:
@@ -1073,6 +1073,7 @@ def gen_multi(rng, extra=None):
             e = ('*', E.C(G.coef(rng)), ('*', e, ('x', rng.randrange(nx))))
         return ref(('ph', i, kind, e))
     pv = [('v', j) for j in range(md['pvars'])]
+    pp = [('p', j) for j in range(md['pparams'])]
     # coupling pattern: consecutive stages are joined in state; in time when one side is free
     for i in range(n - 1):
         if rng.random() < 0.85:
@@ -1083,8 +1084,14 @@ def gen_multi(rng, extra=None):
     if pv:
         for v in pv:
             i = rng.randrange(n)
+            bound = E.C(G.coef(rng))
+            if pp and rng.random() < 0.7:
+                bound = ('*', bound, rng.choice(pp))       # the parent's own parameter next to the parent's own variable
             md['pcons'].append({'rel': rng.choice(['le', 'eq']), 'a': ('+', v, ('*', E.C(G.coef(rng)), stage_ph(i, rng.choice(['at_tf', 'at_t0'])))),
-                                'b': E.C(G.coef(rng))})
+                                'b': bound})
+    elif pp:
+        i = rng.randrange(n)
+        md['pcons'].append({'rel': 'le', 'a': stage_ph(i, 'at_tf'), 'b': ('*', E.C(abs(G.coef(rng)) + 1), pp[0])})
     terms = []
     for i in range(n):
         if descs[i]['T'][0] == 'free' and rng.random() < 0.7:
@@ -1094,6 +1101,8 @@ def gen_multi(rng, extra=None):
             terms.append(('*', E.C(G.coef(rng)), ('*', r, r)))
     for v in pv:
         terms.append(('*', v, v))
+        if pp:
+            terms.append(('*', rng.choice(pp), v))
     if terms:
         e = terms[0]
         for t in terms[1:]:
@@ -1134,6 +1143,9 @@ def build_multi(md, transcribe=True):
             mb.bs.append(b)
         mb.fp_after_clone = [stage_fingerprint(tb.ocp) for tb in mb.templates]
         mb.pv = [ocp.variable() for _ in range(md['pvars'])]
+        mb.pp = [ocp.parameter() for _ in range(md.get('pparams', 0))]
+        for q in mb.pp:
+            ocp.set_value(q, 1.5)
         ref_syms = []
         for r in md['refs']:
             if r[0] == 'ph':
@@ -1150,6 +1162,8 @@ def build_multi(md, transcribe=True):
                 return ref_syms[i]
             if kind == 'v':
                 return mb.pv[i]
+            if kind == 'p':
+                return mb.pp[i]
             raise KeyError(kind)
         for c in md['pcons']:
             A = E.to_casadi(c['a'], sym_parent)
@@ -1173,6 +1187,8 @@ def build_multi(md, transcribe=True):
         mb.Wnlp = Walker(ca.Function('nlp', [opti.x, opti.p], [opti.f, opti.g, opti.lbg, opti.ubg]))
         if mb.pv:
             mb.Wpv = Walker(ca.Function('pv', [opti.x, opti.p], [ca.vertcat(*[ocp.value(v) for v in mb.pv])]))
+        if mb.pp:
+            mb.Wpp = Walker(ca.Function('pp', [opti.x, opti.p], [ca.vertcat(*[ocp.value(v) for v in mb.pp])]))
     return mb
 
 
@@ -1187,7 +1203,7 @@ def stage_model_desc(md, i):
     return d, idx
 
 
-def multi_lines(md, physs, pvals):
+def multi_lines(md, physs, pvals, ppvals=()):
     L = ["mbegin"]
     ref_idx = {}
     for i in range(len(md['stages'])):
@@ -1202,6 +1218,7 @@ def multi_lines(md, physs, pvals):
         else:
             L.append("mref %s %d" % (r[0], r[1]))
     L.append("mV " + Mo.rats(pvals))
+    L.append("mP " + Mo.rats(ppvals))
     for cid, c in enumerate(md['pcons']):
         L.append("mcon %d %s 1" % (cid, c['rel']))
         L.append("ma " + E.to_tokens(c['a']))
@@ -1226,13 +1243,14 @@ def compare_multi(md, mb, driver, rng, R=2):
                     fv = [rnd(rng) for _ in range(sum(s.numel() for s in b.free))] if b.free else None
                     physs.append(B.eval_phys(b, xv, pv, fv))
                 pvals = [v[0] for v in mb.Wpv([xv, pv])[0]] if mb.pv else []
+                ppvals = [v[0] for v in mb.Wpp([xv, pv])[0]] if getattr(mb, 'pp', None) else []
                 break
             except ZeroDivisionError:
                 if attempt == 19:
                     raise
         pts.append((xv, pv))
         impl_pts.append(B.atoms_of_impl(g, lbg, ubg))
-        driver.send(multi_lines(md, physs, pvals))
+        driver.send(multi_lines(md, physs, pvals, ppvals))
         mf, rows = Mo.parse_nlp(driver.run('multi'))
         model_pts.append(rows)
         fpairs.append((mf, f[0]))
@@ -1334,11 +1352,21 @@ class C12(Check):
                                      "parent_constraints": len(md['pcons']), "model_atoms": nm, "impl_atoms": ni})
             # number of decision variables: nothing beyond the children's and the parent's
             msg = None
-            if problems:
+            if getattr(mb, 'pp', None):
+                # the parent's own parameter reads back the value the user set, whatever the decision vector is
+                # (a consistent swap of parent symbols would be invisible to the NLP comparison, which reads the values back)
+                import casadi as ca
+                with B.quiet():
+                    pcur = [Fr(v) for v in ca.DM(mb.opti.debug.value(mb.opti.p, mb.opti.initial())).full().flatten().tolist()]
+                xv = [rnd(self.rng) for _ in range(mb.nx_opti)]
+                got = [v[0] for v in mb.Wpp([xv, pcur])[0]]
+                if any(g != Fr(3, 2) for g in got):
+                    msg = "ocp.value(q) of the parent's own parameter q (set to 1.5) evaluates to %s at a random decision vector" % [float(g) for g in got]
+            if msg is None and problems:
                 kind, det = problems[0]
                 msg = ("multi-stage objective is not the parent's objective plus the children's: %s" % det) if kind == 'objective' else \
                       ("multi-stage NLP rows are not the disjoint union of the children's rows and the parent's: %s" % str(det)[:600])
-            else:
+            elif msg is None:
                 exp_nx = self.expected_nx(md)
                 if exp_nx is not None and exp_nx != mb.nx_declared:
                     msg = "the multi-stage NLP declares %d decision variables, the children and the parent account for %d" % (mb.nx_declared, exp_nx)
